@@ -122,6 +122,12 @@ Lemma b_plus_symbol : gen_plus_symbol = 43.
 Proof. reflexivity. Qed.
 Lemma b_plus_line : forall j n : nat, Z.of_nat (m_plus_line j n) = gen_plus_line (Z.of_nat j) (Z.of_nat n).
 Proof. intros. unfold m_plus_line, gen_plus_line. lia. Qed.
+(* fastq_buffer.py _validate (repaired): the '+' violation is raised when its line precedes the header violation's *)
+Lemma b_plus_wins : forall p h : nat, m_plus_wins p h = gen_plus_wins (Z.of_nat p) (Z.of_nat h).
+Proof.
+  intros p h. unfold m_plus_wins, gen_plus_wins.
+  destruct (Nat.ltb_spec p h); symmetry; [apply Z.ltb_lt|apply Z.ltb_ge]; lia.
+Qed.
 
 (* ---- delimited_buffers.py, npdataclassreader.py ---- *)
 Lemma b_delim_size : forall last_nl : Z, m_size_after last_nl = Z.to_nat (gen_delim_size last_nl).
